@@ -25,6 +25,11 @@ def build(tier):
             for api in ((0, 1) if tier == "thorough" or n <= 4 else (pi % 2,)):
                 ln = (1, 2)[pi % 2] if data == "full" else (3, 17)[pi % 2]
                 qs.append(rs_cycle("C02", RS2M, k, r, ln, m, pat, api, 1, (pi + api) % 5, EN, data=data))
+    # codec 1 (legacy GF(2^8)), ~100 s per query: (2,2), received sets around the MDS boundary, orders with duplicates
+    c1 = [([0, 2], 3), ([3], 3), ([1, 3], 4)] if tier == "quick" else \
+         [(p, v) for p in all_patterns(4) for v in (0, 3, 4)]
+    for pi, (pat, var) in enumerate(c1):
+        qs.append(rs_cycle("C02", RS28, 2, 2, 1, 8, pat, 0 if var else pi % 2, 1, var, EN, data="full", timeout=1500))
     # larger codes: received sets of exactly k and exactly k-1 symbols (the MDS boundary), sampled
     big = [(4, 5, 4), (4, 7, 4), (8, 5, 3)] if tier == "quick" else [(4, 5, 4), (4, 7, 4), (4, 6, 6), (4, 10, 5), (8, 5, 3), (8, 6, 4), (8, 4, 6)]
     for m, k, r in big:
@@ -37,6 +42,6 @@ def build(tier):
         units=["src/lib_stable/reed-solomon_gf_2_m/of_reed-solomon_gf_2_m_api.c", "galois_field_codes_utils/of_galois_field_code.c", "algebra_2_4.c", "algebra_2_8.c", "tables of algebra_2_{4,8}.h and of_reed-solomon_gf_2_8.c"],
         functions_encoded=["of_rs_2_m_decode_with_new_symbol", "of_rs_2_m_set_available_symbols", "of_rs_2_m_finish_decoding", "of_rs_2m_build_encoding_matrix", "of_rs_2m_build_decoding_matrix", "of_rs_2m_decode", "of_galois_field_2_{4,8}_invert_mat/invert_vdm/matmul"],
         bounds="RS GF(2^m) (m,k,r,data) in %s: every received set of the 2^n, both directions asserted (>= k distinct symbols => complete with the right data, also through extra symbols and duplicates; < k => never complete and of_finish_decoding == OF_STATUS_FAILURE); larger codes %s on sampled k-subsets and (k-1)-subsets; lemma: the exponential tables of both codecs take pairwise distinct non-zero values on 0..2^m-2 (all index pairs symbolic), i.e. the evaluation points 0,1,a,a^2.. are distinct" % (rs, big),
-        outside_bounds="codec 1 (legacy GF(2^8)) decoding (no verdict under CBMC, see DESIGN); all received sets of codes with n > 6 (m=4) / n > 5 (m=8); data=one: only one source symbol is free per query; that distinct points imply MDS is mathematics, not checked",
+        outside_bounds="codec 1 (legacy GF(2^8)) beyond (2,2); all received sets of codes with n > 6 (m=4) / n > 5 (m=8); data=one: only one source symbol is free per query; that distinct points imply MDS is mathematics, not checked",
         stubs=[RS_STUB, RS28_TABLES], assumptions=STD_ASSUMPTIONS, exhaustive=False)
     return qs, meta
